@@ -110,9 +110,16 @@ pub struct Stats {
     pub labels: BTreeMap<String, u64>,
     pub excluded: BTreeMap<String, u64>,
     pub nontrivial: HashSet<u64>,
+    /// non-trivial cases seen after the distinct set reached NONTRIVIAL_CAP (not de-duplicated)
+    #[serde(default)]
+    pub nontrivial_beyond_cap: u64,
     pub samples: Vec<Value>,
     pub sub: BTreeMap<String, u64>,
 }
+
+/// The set of distinct non-trivial case hashes is exact up to this many entries (64 MiB of table);
+/// beyond it `distinct_nontrivial` is a lower bound (thorough tiers of C10 see tens of millions).
+pub const NONTRIVIAL_CAP: usize = 4_000_000;
 
 impl Stats {
     pub fn merge(&mut self, o: Stats) {
@@ -127,12 +134,26 @@ impl Stats {
         for (k, v) in o.sub {
             *self.sub.entry(k).or_insert(0) += v;
         }
-        self.nontrivial.extend(o.nontrivial);
+        self.nontrivial_beyond_cap += o.nontrivial_beyond_cap;
+        for h in o.nontrivial {
+            self.note_nontrivial(h);
+        }
         for s in o.samples {
             if self.samples.len() < 8 {
                 self.samples.push(s);
             }
         }
+    }
+
+    /// true when `h` was not seen before (always false once the cap is reached)
+    pub fn note_nontrivial(&mut self, h: u64) -> bool {
+        if self.nontrivial.len() >= NONTRIVIAL_CAP {
+            if !self.nontrivial.contains(&h) {
+                self.nontrivial_beyond_cap += 1;
+            }
+            return false;
+        }
+        self.nontrivial.insert(h)
     }
 
     pub fn record<T: Serialize>(&mut self, sub: &str, case: &T, obs: Obs) {
@@ -149,7 +170,7 @@ impl Stats {
             *self.labels.entry(format!("{}:{}", sub, l)).or_insert(0) += n;
         }
         for h in obs.inner_nontrivial {
-            self.nontrivial.insert(h);
+            self.note_nontrivial(h);
         }
         if let Some(sv) = obs.sample {
             if self.samples.len() < 3 {
@@ -159,7 +180,7 @@ impl Stats {
         if obs.nontrivial {
             let txt = serde_json::to_string(case).unwrap_or_default();
             let h = seahash::hash(txt.as_bytes()) ^ seahash::hash(sub.as_bytes());
-            if self.nontrivial.insert(h) && self.samples.len() < 2 {
+            if self.note_nontrivial(h) && self.samples.len() < 2 {
                 self.samples.push(json!({"check": sub, "case": case}));
             }
         }
@@ -658,6 +679,9 @@ impl Ctx {
         coverage.insert("evaluations".into(), json!(evals));
         coverage.insert("cases".into(), json!(self.stats.cases));
         coverage.insert("distinct_nontrivial".into(), json!(distinct));
+        if self.stats.nontrivial_beyond_cap > 0 {
+            coverage.insert("distinct_nontrivial_note".into(), json!(format!("lower bound: the exact set is capped at {} entries; {} further non-trivial evaluations were seen after the cap (not de-duplicated)", NONTRIVIAL_CAP, self.stats.nontrivial_beyond_cap)));
+        }
         coverage.insert("rule".into(), json!(self.rule));
         coverage.insert("samples".into(), json!(self.stats.samples));
         coverage.insert("exhaustive".into(), json!(self.exhaustive));
